@@ -2908,8 +2908,8 @@ class x86_mn(x86_mn_base):
         # 'args_eval' is a list whose elements can be modified
         for a in args_eval:
             if x86_afs.segm in a:
-                # XXX todo hack: if only one arg, no prefix
-                if len(args_eval) == 1 and not name in ['push', 'pop']:
+                # the explicit operand of stos/lods/scas only repeats the implicit one: no prefix
+                if len(args_eval) == 1 and name in rep_sto_lod_sca:
                     continue
                 #print a
                 prefix.append(prefix_seg[a[x86_afs.segm]])
